@@ -374,6 +374,13 @@ func Main(t *testing.T, w World) {
 			}
 			perClause[key]++
 			min, mres, _ := Shrink(t, w, c, prop, res.Violation, *fShrink)
+			if mres.Violation == nil {
+				// the violation did not come back when the same case was run again: something the
+				// simulator does not control took part in it. It is still reported, with the case as
+				// generated, and the run is marked non-deterministic.
+				rep.DetMismatch = append(rep.DetMismatch, fmt.Sprintf("case %d seed %d: violation %s/%s did not reproduce on re-run", i, c.Seed, res.Violation.Property, res.Violation.Clause))
+				min, mres = c, res
+			}
 			path, err := writeReplay(w, prop, min, mres, c)
 			if err != nil {
 				rep.Error = err.Error()
